@@ -773,11 +773,12 @@ Section Inv.
     Inv strict none s -> ok W s o = true -> (strict = true -> default_mode o = true) ->
     Inv strict none (fst (step W s o)).
   Proof.
-    intros I Hok Hd. destruct o as [o|o|ts ids c|os]; simpl.
+    intros I Hok Hd. destruct o as [o|o|ts ids c|os|os]; simpl.
     - apply add_obstacle_inv. exact I.
     - apply remove_obstacle_inv. exact I.
     - apply assign_inv; try assumption. intro E. specialize (Hd E). simpl in Hd. destruct c; [discriminate | reflexivity].
     - apply read_all_inv; assumption.
+    - unfold load_all. destruct (add_fold_inv strict none os s I) as [I1 _]. exact I1.
   Qed.
 
   Lemma run_inv strict ops : forall s,
@@ -1047,6 +1048,62 @@ Section Full.
   Qed.
   Lemma assign_done ts ids c s : snd (assign W ts ids c s) = Done.
   Proof. unfold assign. apply ids_done. Qed.
+
+  (* ---- the reader-side assignment stores, for every obstacle of the file, the lookups of every state of its
+     own: [initial_state] + state_list are looked up one by one (no reuse of the previous state's lanelets) *)
+  Lemma fold_dset_keep (f : Z -> list Z) ts : forall d t,
+    dget t d = Some (f t) -> dget t (fold_left (fun d t => dset t (f t) d) ts d) = Some (f t).
+  Proof.
+    induction ts as [|a r IH]; intros d t H; simpl; [exact H|].
+    apply IH. destruct (Z.eq_dec t a) as [->|N]; [apply dget_dset_same | rewrite dget_dset_other by exact N; exact H].
+  Qed.
+  Lemma fold_dset_get (f : Z -> list Z) ts : forall d t,
+    In t ts -> dget t (fold_left (fun d t => dset t (f t) d) ts d) = Some (f t).
+  Proof.
+    induction ts as [|a r IH]; intros d t H; simpl; [destruct H|].
+    destruct (Z.eq_dec a t) as [->|N].
+    - apply fold_dset_keep. apply dget_dset_same.
+    - destruct H as [H|H]; [congruence | apply IH; exact H].
+  Qed.
+
+  Lemma read_one_full s o :
+    full (read_one W o s) o /\ (forall o', o' <> o -> same_attrs s (read_one W o s) o').
+  Proof.
+    unfold read_one. destruct (kind W o) eqn:K; split.
+    - split; [unfold init_ok; simpl; rewrite !upd_same; auto | congruence].
+    - intros o' N. unfold same_attrs. simpl. rewrite !upd_other by exact N. auto.
+    - split; [unfold init_ok; simpl; rewrite !upd_same; auto|].
+      intros _ _ t Ht. unfold dict_ok. simpl. rewrite !upd_same. simpl.
+      split; [apply (fold_dset_get (sm W o)) | apply (fold_dset_get (cin W o))]; exact Ht.
+    - intros o' N. unfold same_attrs. simpl. rewrite !upd_other by exact N. auto.
+  Qed.
+
+  Lemma read_fold_full os : forall s,
+    (forall o, In o os -> full (fold_left (fun s o => read_one W o s) os s) o) /\
+    (forall o, full s o -> full (fold_left (fun s o => read_one W o s) os s) o).
+  Proof.
+    induction os as [|o rest IH]; intro s; simpl; [split; [intros o []|auto]|].
+    destruct (read_one_full s o) as [A1 A2]. destruct (IH (read_one W o s)) as [B1 B2].
+    assert (KP : forall x, full s x -> full (read_one W o s) x).
+    { intros x Fx. destruct (Z.eq_dec x o) as [->|N]; [exact A1 | eapply same_attrs_full; [apply A2; exact N | exact Fx]]. }
+    split.
+    - intros x [H|H]; [subst x; apply B2; exact A1 | apply B1; exact H].
+    - intros x Fx. apply B2. apply KP. exact Fx.
+  Qed.
+
+  Lemma add_obstacle_attrs s o o' : same_attrs s (add_obstacle W o s) o'.
+  Proof. unfold same_attrs, add_obstacle. destruct (kind W o); simpl; auto. Qed.
+  Lemma add_fold_attrs os : forall s o', same_attrs s (fold_left (fun s o => add_obstacle W o s) os s) o'.
+  Proof.
+    induction os as [|o r IH]; intros s o'; simpl; [apply same_attrs_refl|].
+    eapply same_attrs_trans; [apply add_obstacle_attrs | apply IH].
+  Qed.
+
+  Lemma read_all_full s os o : In o os -> full (read_all W os s) o.
+  Proof.
+    intro H. unfold read_all. eapply same_attrs_full; [apply add_fold_attrs|].
+    destruct (read_fold_full os s) as [A _]. apply A. exact H.
+  Qed.
 End Full.
 
 Lemma reachable_assign_all W ops : wf W -> all_ok W ops init = true ->
@@ -1065,4 +1122,38 @@ Proof.
   - intros o Hp. apply present_In in Hp. destruct (B o) as [C _]; [apply in_or_app; exact Hp | exact C].
   - intros o Ho F t Ht. destruct (B o) as [_ C]; [apply in_or_app; right; exact Ho|].
     apply C; [apply (kind_d _ _ _ _ I); exact Ho | exact F | exact Ht].
+Qed.
+
+(* ================================================================== reading a file with lanelet assignment *)
+Lemma read_complete W s os o : In o os ->
+  let s' := fst (step W s (ORead os)) in
+  ish s' o = Some (sm W o (t0 W o)) /\ ic s' o = Some (cin W o (t0 W o)) /\
+  (kind W o = Dynamic -> tf W o <> None -> forall t, In t (horizon W o) ->
+     dget t (opt_dict (sa s' o)) = Some (sm W o t) /\ dget t (opt_dict (ca s' o)) = Some (cin W o t)).
+Proof.
+  intros H s'. destruct (read_all_full W s os o H) as [[A B] C]. unfold s'. simpl.
+  split; [exact A|]. split; [exact B|]. intros K F t Ht. apply C; assumption.
+Qed.
+
+(* ... which is what assign_obstacles_to_lanelets() stores for the same obstacle in any scenario that contains it *)
+Lemma read_is_assign W s os ops o : wf W -> all_ok W ops init = true -> In o os ->
+  present (run W ops init) o = true ->
+  let s1 := fst (step W s (ORead os)) in
+  let s2 := fst (assign W None None false (run W ops init)) in
+  ish s1 o = ish s2 o /\ ic s1 o = ic s2 o /\
+  (kind W o = Dynamic -> tf W o <> None -> forall t, In t (horizon W o) ->
+     dget t (opt_dict (sa s1 o)) = dget t (opt_dict (sa s2 o)) /\
+     dget t (opt_dict (ca s1 o)) = dget t (opt_dict (ca s2 o))).
+Proof.
+  intros Hwf Hok Ho Hp s1 s2.
+  pose proof (read_complete W s os o Ho) as R. cbv zeta in R. fold s1 in R. destruct R as [R1 [R2 R3]].
+  pose proof (reachable_assign_all W ops Hwf Hok) as A. cbv zeta in A. fold s2 in A. destruct A as [_ [A1 A2]].
+  destruct (A1 o Hp) as [B1 B2].
+  split; [congruence|]. split; [congruence|].
+  intros K F t Ht. destruct (R3 K F t Ht) as [C1 C2].
+  assert (I : Inv W false none (run W ops init)) by (apply reachable_inv; [exact Hok | discriminate]).
+  assert (D : In o (dynamics (run W ops init))).
+  { apply present_In in Hp. destruct Hp as [X|X]; [|exact X].
+    pose proof (kind_s _ _ _ _ I o X) as Y. congruence. }
+  destruct (A2 o D F t Ht) as [E1 E2]. split; congruence.
 Qed.
